@@ -152,12 +152,16 @@ class AbstractFormat:
         )
 
     def __abs__(self) -> 'AbstractFormat':
-        """Absolute value of the format (clamps the negative bound to zero)."""
+        """Absolute value of the format: the negative side folds onto the
+        positive one, so the upper bound is the larger magnitude of the two
+        bounds (``abs(-128)`` under ``SINT8`` is 128, not 127) and the lower
+        bound is zero."""
         # abs maps -inf to +inf, so +inf is present if either infinity was.
         # `has_neg_zero` is left at its default: `abs` never yields a negative
         # zero, so false is the derived answer here, not an omission.
         return AbstractFormat(
-            self.prec, self.exp, self.pos_bound, neg_bound=RealFloat.from_int(0),
+            self.prec, self.exp, max(self.pos_bound, -self.neg_bound),
+            neg_bound=RealFloat.from_int(0),
             has_pos_inf=self.has_pos_inf or self.has_neg_inf, has_neg_inf=False, has_nan=self.has_nan,
         )
 
